@@ -55,6 +55,8 @@ func modeOpts(mode string, limit int) []quartz.SchedulerOpt {
 		o = append(o, quartz.WithBlockingExecution())
 	case "blocking+limit":
 		o = append(o, quartz.WithBlockingExecution(), quartz.WithWorkerLimit(limit))
+	case "limit+blocking": // the same two options in the other order
+		o = append(o, quartz.WithWorkerLimit(limit), quartz.WithBlockingExecution())
 	case "pool":
 		o = append(o, quartz.WithWorkerLimit(limit))
 	}
@@ -380,6 +382,8 @@ func cmdModes() {
 	run(func() modesResult { return runBarrier("blocking+limit", 4, 1, 3, 2, hold, "barrier_n1", seed) })
 	run(func() modesResult { return runMixed("blocking", 0, 1, seed) })
 	run(func() modesResult { return runMixed("blocking+limit", 3, 1, seed) })
+	run(func() modesResult { return runBarrier("limit+blocking", 4, 1, 3, 2, hold, "barrier_n1", seed) })
+	run(func() modesResult { return runMixed("limit+blocking", 3, 1, seed) })
 	run(func() modesResult { return runBarrier("unbounded", 0, 0, 24, 24, 5*time.Second, "barrier_n", seed) })
 	run(func() modesResult { return runBarrier("unbounded", 0, 0, 320, 320, 8*time.Second, "barrier_n", seed) })
 	for _, n := range []int{1, 2, 3} {
